@@ -28,7 +28,7 @@ Definition idx (a : ast) : N := mix [(32, pctag_n (x_pc a)); (16, sst_n (x_cs a)
 Definition acode (a : ast) : N :=
   mix [(8192, idx a); (512, m_n (x_m a)); (2, b2n (x_up a)); (2, b2n (x_ab a)); (2, b2n (x_rqe a)); (2, b2n (x_rqf a));
        (2, b2n (x_rsf a)); (2, b2n (x_live a)); (2, b2n (x_rs a)); (2, b2n (x_rq a)); (2, b2n (x_qb a)); (2, b2n (x_pb a)); (2, b2n (x_tun a)); (2, b2n (x_cr a));
-       (2, b2n (x_ve a)); (2, b2n (x_vg a))].
+       (2, b2n (x_ve a)); (2, b2n (x_ws a))].
 
 Definition m_eqb (a b : mstate) : bool :=
   Bool.eqb (m_qh a) (m_qh b) && Bool.eqb (m_q a) (m_q b) && Bool.eqb (m_rh a) (m_rh b) && Bool.eqb (m_r a) (m_r b)
@@ -40,7 +40,7 @@ Definition ast_eqb (a b : ast) : bool :=
   && Bool.eqb (x_rqf a) (x_rqf b) && Bool.eqb (x_rsf a) (x_rsf b) && Bool.eqb (x_live a) (x_live b)
   && Bool.eqb (x_rs a) (x_rs b) && Bool.eqb (x_rq a) (x_rq b) && Bool.eqb (x_qb a) (x_qb b)
   && Bool.eqb (x_pb a) (x_pb b) && Bool.eqb (x_tun a) (x_tun b)
-  && Bool.eqb (x_cr a) (x_cr b) && Bool.eqb (x_ve a) (x_ve b) && Bool.eqb (x_vg a) (x_vg b).
+  && Bool.eqb (x_cr a) (x_cr b) && Bool.eqb (x_ve a) (x_ve b) && Bool.eqb (x_ws a) (x_ws b).
 
 Lemma sst_eqb_eq a b : sst_eqb a b = true -> a = b.
 Proof. destruct a, b; simpl; intros H; try discriminate; reflexivity. Qed.
@@ -234,7 +234,7 @@ Definition closed_ok (a : ast) : bool :=
   (x_rqf a || sst_eqb (x_cs a) SErrored || sst_eqb (x_ss a) SErrored)
   && (negb (x_up a) || x_rsf a || x_ab a || sst_eqb (x_ss a) SErrored).
 Definition P_out (a : ast) : bool :=
-  negb (is_pnone (x_pc a)) || x_tun a || x_cr a || x_ve a || negb (m_qh (x_m a)) || negb (closed_ok a)
+  negb (is_pnone (x_pc a)) || x_tun a || x_cr a || x_ve a || x_ws a || negb (m_qh (x_m a)) || negb (closed_ok a)
   || (xorb (m_r (x_m a)) (m_er (x_m a)) && negb (x_live a)).
 Lemma table_facts : forallb (fun a => P_ok a && P_both a && P_early a && P_out a) ELEMS = true.
 Proof. vm_cast_no_check (eq_refl true). Qed.
